@@ -84,7 +84,7 @@ FRAME_QUICK = [
     ("c11", "depth2"),
     ("c09", "recursive_root_only"),
     ("c09", "already_signed_actions"),
-    ("c06", "encrypt_and_generate_cli"),
+    ("c06", "encrypt_and_generate_cli_k0"),
     ("c14", "history_same_object_k2"),
     ("c07", "one_envelope_nrf54h20_severed0"),
     ("c19", "root_subset0_100"),
@@ -162,7 +162,17 @@ def _root():
 
 def h_frame(prop, ob, exclude=()):
     mod, o = _inner(prop, ob)
-    inner = getattr(mod, o.fn)(**dict(o.params))
+    kw = dict(o.params)
+    import inspect
+    import json
+    import os
+
+    if "exclude" in inspect.signature(getattr(mod, o.fn)).parameters:
+        # inputs of the wrapped property's recorded known findings are assumed away exactly as that property's own re-run does
+        # (the wrapped harness would otherwise stop at the finding's path instead of exhausting the operation)
+        with open(os.path.join(os.path.dirname(os.path.dirname(os.path.abspath(__file__))), "known_findings.json")) as fh:
+            kw["exclude"] = tuple(f["id"] for f in json.load(fh)["findings"] if f["property"] == prop.upper() and f.get("status") == "known")
+    inner = getattr(mod, o.fn)(**kw)
     from crosshair.tracers import NoTracing
 
     from vlib import chx, statesnap
